@@ -419,7 +419,9 @@ def replay_catalogue(case, model, rec):
     parts = (case or "").split(",")
     fname = parts[0]
     tried = []
-    for dtype in ("float32", "int32", "float64"):
+    for dtype in ("float32", "int32", "float64", "uint16"):
+        if dtype.startswith("uint") and (fname in ("negative", "diff", "subtract", "ediff1d") or fname == "power"):
+            continue  # the float64 oracle does not wrap
         va = model_array(model, "a", "2d" if "axis" in (case or "") else "1d", dtype)
         vb = model_array(model, "b", "1d", dtype)
         a = osy.Array(values=va, unit="m")
@@ -777,11 +779,18 @@ def replay_vector_numpy(case, model, rec):
 
 def replay_norm(case, model, rec):
     np = _np()
-    n = int((case or "nvec=3").split("=")[1])
+    n = int((case or "nvec=3").split(",")[0].split("=")[1])
     v = mkvec(n, "m", base=-1.0)
     r = v.norm
     want = np.sqrt(sum(getattr(v, c).values ** 2 for c in "xyz"[:n]))
     ok = np.allclose(r.values, want) and r.unit == v.unit
+    if ok and n > 1:
+        # history: a component updated in place through a handle, then the norm again
+        h = v.y
+        h += h
+        r = v.norm
+        want = np.sqrt(sum(getattr(v, c).values ** 2 for c in "xyz"[:n]))
+        ok = np.allclose(r.values, want)
     return {"reproduced": not ok, "input": "components %s" % [getattr(v, c).values.tolist() for c in "xyz"[:n]],
             "observed": "norm %s expected %s" % (r.values, want)}
 
